@@ -176,7 +176,9 @@ def _make_analysis(case, log):
 
 def _set_bs(case, first_run):
     kind, val = case['batch']
-    if kind == 'int':
+    if kind == 'default':
+        scared.set_batch_size(None)
+    elif kind == 'int':
         scared.set_batch_size(int(val))
     elif kind == 'mb':
         scared.set_batch_size(float(val))
@@ -211,7 +213,10 @@ def _check(ctx, case):
     for ri, run in enumerate(case['runs']):
         samples, pt = run['samples'], run['plaintext']
         N = samples.shape[0]
-        ths = dist.ram_ths(samples=samples, plaintext=pt, idx=np.arange(N, dtype='uint32'))
+        extra = {}
+        for name in case.get('decoys') or []:
+            extra[name] = np.roll(pt, 1, axis=1) ^ 0x5a        # other metadata the trace set happens to carry (all of it is handed to the selection function)
+        ths = dist.ram_ths(samples=samples, plaintext=pt, idx=np.arange(N, dtype='uint32'), **extra)
         cont = scared.Container(ths, frame=frame, preprocesses=_scared_chain(chain))
         start = len(log)
         with warnings.catch_warnings():
@@ -256,7 +261,7 @@ def _check(ctx, case):
             raise Violation('run #%d: processed_traces = %s, %d traces were given so far' % (ri + 1, an.processed_traces, total), case)
         # (b) results of everything so far
         _check_results(ctx, case, an, np.concatenate(X_all, axis=0), np.concatenate(D_all, axis=0), first_block_data)
-    labels = ['analysis:' + a, 'mode:' + case['mode'], 'batch:' + case['batch'][0], 'frame:' + case['frame_kind'], 'chain:%d' % len(chain), 'runs:%d' % len(case['runs']),
+    labels = ['analysis:' + a, 'mode:' + case['mode'], 'batch:' + case['batch'][0]] + (['decoy_metadata'] if case.get('decoys') else []) + [ 'frame:' + case['frame_kind'], 'chain:%d' % len(chain), 'runs:%d' % len(case['runs']),
               'model:' + case['model'], 'prec:' + case['precision']]
     if multi_batch:
         labels.append('multi_batch')
@@ -323,7 +328,7 @@ def replay(ctx, case):
 
 # ------------------------------------------------------------------------------------------------
 @st.composite
-def cases(draw, analysis, precision):
+def cases(draw, analysis, precision, large=False):
     seed64 = draw(st.integers(0, 2 ** 63))
     g = np.random.Generator(np.random.PCG64(seed64))
     mode = draw(st.sampled_from(['attack', 'reverse']))
@@ -331,8 +336,15 @@ def cases(draw, analysis, precision):
     tdt = draw(st.sampled_from(['uint8', 'int16', 'float32', 'float64']))
     # batch size first, then N relative to it
     bkind = draw(st.sampled_from(['int', 'int', 'int', 'mb', 'table']))
+    big = None
+    if large:
+        # the library's DEFAULT batch-size table (25000 traces up to 1000 samples, 5000 up to 5000 samples): sets just above one or two default batches
+        big = draw(st.sampled_from([(25001, 2), (50001, 2), (30000, 3), (5003, 1001), (10001, 1002)]))
+        L = big[1]
+        tdt = 'uint8'
+        bkind = 'default'
     # frame
-    fk = draw(st.sampled_from(['none', 'none', 'slice', 'list', 'ndarray', 'range']))
+    fk = draw(st.sampled_from(['none', 'none', 'slice', 'list', 'ndarray', 'range'])) if not large else 'none'
     if fk == 'none':
         frame = None
     elif fk == 'slice':
@@ -351,7 +363,9 @@ def cases(draw, analysis, precision):
     cur_len, cur_is_u8 = flen, tdt == 'uint8'
     mag = {'uint8': 255.0, 'int16': 300.0}.get(tdt, 50.0)
     mag_max = 1e5 if precision == 'float32' else 1e40     # keep squared sums far from overflow in the requested precision
-    for _ in range(draw(st.integers(0, 3))):
+    if analysis == 'mia':
+        mag_max = min(mag_max, 1e6)                       # integer-width bin edges must stay exactly representable
+    for _ in range(draw(st.integers(0, 3)) if not large else 0):
         options = ['affine', 'reverse']
         if mag ** 2 <= mag_max:
             options.append('square')
@@ -372,7 +386,10 @@ def cases(draw, analysis, precision):
             cur_len *= 8
         cur_is_u8 = p == 'serialize'
     itemsize = np.dtype(tdt).itemsize
-    if bkind == 'int':
+    if bkind == 'default':
+        bs = 25000 if L <= 1000 else 5000
+        batch = ['default', 0]
+    elif bkind == 'int':
         bs = draw(st.integers(1, 25))
         batch = ['int', bs]
     elif bkind == 'mb':
@@ -385,11 +402,13 @@ def cases(draw, analysis, precision):
         batch = ['table', [[0, a_], [thr, b_]]]
         bs = a_ if eff < thr else b_
     runs = []
-    for _ in range(draw(st.sampled_from([1, 1, 2, 3]))):
+    for _ in range(draw(st.sampled_from([1, 1, 2, 3])) if not large else 1):
         style = draw(st.sampled_from(['less', 'equal', 'multiple', 'multiple+1', 'any', 'any']))
         kmul = draw(st.integers(2, 3))
         N = {'less': max(1, bs - draw(st.integers(1, 3))), 'equal': bs, 'multiple': kmul * bs, 'multiple+1': kmul * bs + 1}.get(style) or draw(st.integers(1, 70))
         N = max(1, min(N, 70))
+        if large:
+            N = big[0] + draw(st.integers(0, 2))
         if tdt == 'uint8':
             smp = g.integers(0, 256, size=(N, L)).astype(tdt)
         elif tdt == 'int16':
@@ -404,7 +423,10 @@ def cases(draw, analysis, precision):
     mask = draw(st.sampled_from([0x0F, 0x07, 0xFF])) if analysis in ('cpa', 'dpa') else draw(st.sampled_from([0x0F, 0x07, 0x03]))
     wk = draw(st.sampled_from(['all', 'all', 'slice', 'list']))
     words = None if wk == 'all' else slice(1, 3) if wk == 'slice' else [3, 0]
+    if large:
+        mask = 0x01 if analysis not in ('cpa', 'dpa') else mask
     case = {'kind': 'run', 'analysis': analysis, 'mode': mode, 'precision': precision, 'frame': frame, 'frame_kind': fk, 'chain': chain, 'batch': batch,
+            'decoys': draw(st.lists(st.sampled_from(['data', 'key', 'ciphertext', 'foo']), max_size=2, unique=True)),
             'runs': runs, 'model': model, 'mask': mask, 'words': words, 'partitions': None, 'edges': None}
     if mode == 'attack':
         ng = draw(st.integers(2, 5))
@@ -433,9 +455,9 @@ def cases(draw, analysis, precision):
     return case
 
 
-def unit_generated(ctx, analyses, precision, n):
+def unit_generated(ctx, analyses, precision, n, large=False):
     for i, a in enumerate(analyses):
-        hyp.run(ctx, cases(a, precision), check_case, n, shrink_budget=80 if ctx.tier == 'quick' else 500, seed_extra=i)
+        hyp.run(ctx, cases(a, precision, large), check_case, n, shrink_budget=(80 if not large else 4) if ctx.tier == 'quick' else (500 if not large else 20), seed_extra=i)
 
 
 def units(tier):
@@ -446,6 +468,7 @@ def units(tier):
             us.append({'name': 'cpa-dpa-%s-%d' % (precision, rep), 'fn': 'unit_generated', 'kwargs': {'analyses': ['cpa', 'dpa'], 'precision': precision, 'n': 130 if q else 1800}})
             us.append({'name': 'anova-nicv-%s-%d' % (precision, rep), 'fn': 'unit_generated', 'kwargs': {'analyses': ['anova', 'nicv'], 'precision': precision, 'n': 100 if q else 1400}})
             us.append({'name': 'snr-mia-%s-%d' % (precision, rep), 'fn': 'unit_generated', 'kwargs': {'analyses': ['snr', 'mia'], 'precision': precision, 'n': 100 if q else 1400}})
+    us.append({'name': 'default-batch-table-large-sets', 'fn': 'unit_generated', 'kwargs': {'analyses': ['cpa', 'dpa', 'snr'], 'precision': 'float64', 'n': 3 if q else 30, 'large': True}})
     return us
 
 
